@@ -885,6 +885,16 @@ class SPath(object):
                                         show(self.value) if self.value is not None else self.exc or '')
 
 
+class _Bind(ast.stmt):
+    """Synthetic statement of the executor: bind a local to a term (used when a literal loop is unrolled)."""
+    _fields = ()
+
+    def __init__(self, name, term):
+        ast.stmt.__init__(self)
+        self.name = name
+        self.term = term
+
+
 def sym_exec(idx, fi, stmts=None, env=None, store=None, loops='error', max_paths=400, builder=None):
     """Enumerate the paths of `stmts` (default: the body of fi) with forward substitution of locals,
     of `self.config[...]` writes and of `self.<attr>` writes."""
@@ -976,6 +986,21 @@ def sym_exec(idx, fi, stmts=None, env=None, store=None, loops='error', max_paths
                     nm = (al.asname or al.name).split('.')[0]
                     env[nm] = ('ext', (getattr(s, 'module', None) or al.name) + ('.' + al.name if isinstance(s, ast.ImportFrom) else ''))
                 continue
+            if isinstance(s, _Bind):
+                env = dict(env)
+                env[s.name] = s.term
+                continue
+            if isinstance(s, ast.For) and isinstance(s.target, ast.Name) and not s.orelse:
+                # `for x in (a, b, c)` over a literal (or a local bound to one) is unrolled
+                it = tb.build(s.iter, env, store)
+                if it[0] in ('tuple', 'list') and len(it[1]) <= 16 and not any(
+                        isinstance(n, (ast.Break, ast.Continue)) for b_ in s.body for n in ast.walk(b_)):
+                    unrolled = []
+                    for elt in it[1]:
+                        unrolled.append(_Bind(s.target.id, elt))
+                        unrolled.extend(s.body)
+                    run(unrolled + list(stmts[i + 1:]), env, store, guards, effects, closures)
+                    return
             if isinstance(s, (ast.For, ast.While, ast.Try, ast.With)) and loops == 'opaque':
                 assigned = {n.id for n in ast.walk(s) if isinstance(n, ast.Name) and isinstance(n.ctx, (ast.Store, ast.Del))}
                 env = {k: v for k, v in env.items() if k not in assigned}
@@ -1061,6 +1086,8 @@ class RatEnv(object):
             return Rat.const(1)
         if re_ == Rat.const(1):
             return rb
+        if re_.is_const() and re_.const_value().denominator == 1 and abs(re_.const_value()) <= 8:
+            return rb.ipow(int(re_.const_value()))
         for name, (b0, e0) in self.atoms.items():
             if b0 == rb and e0 == re_:
                 return Rat.sym(name)
@@ -1289,6 +1316,22 @@ def validator_range(idx, module, expr, bind=None, depth=0):
     if isinstance(expr, ast.Call):
         name = nf.callee_name(expr)
         sub = lambda e: validator_range(idx, module, e, bind, depth + 1)   # noqa: E731
+        if name in ('All', 'Any') and any(isinstance(a, ast.Starred) for a in expr.args):
+            # All(t, *bounds) with `bounds` a list/tuple bound in the helper: splice its elements
+            flat = []
+            for a in expr.args:
+                if isinstance(a, ast.Starred):
+                    seq, b2 = a.value, bind
+                    hops = 0
+                    while isinstance(seq, ast.Name) and seq.id in b2 and hops < 6:
+                        seq, _m, b2 = b2[seq.id]
+                        hops += 1
+                    if not isinstance(seq, (ast.List, ast.Tuple)) or b2 is not bind and any(isinstance(n, ast.Name) and n.id in b2 for x in seq.elts for n in ast.walk(x)):
+                        raise Unsupported('starred validator arguments `%s`' % short(a))
+                    flat.extend(seq.elts)
+                else:
+                    flat.append(a)
+            expr = ast.Call(func=expr.func, args=flat, keywords=expr.keywords)
         if name == 'All':
             parts = [sub(a) for a in expr.args]
             iv = Interval.TOP
@@ -1362,12 +1405,17 @@ def _resolve_bound(expr, bind):
 
 
 def _inline_validator(idx, fi, bind, depth):
+    bind = dict(bind)
+
     def run(stmts):
-        for s in stmts:
+        for i, s in enumerate(stmts):
             if isinstance(s, ast.Expr) and isinstance(s.value, ast.Constant):
                 continue
             if isinstance(s, ast.Assign) and len(s.targets) == 1 and isinstance(s.targets[0], ast.Name) \
                     and s.targets[0].id.startswith('_sa_'):
+                continue
+            if isinstance(s, ast.Assign) and len(s.targets) == 1 and isinstance(s.targets[0], ast.Name):
+                bind[s.targets[0].id] = (s.value, fi.module, dict(bind))      # a local of the helper (e.g. `bounds = [...]`)
                 continue
             if isinstance(s, ast.Return):
                 return validator_range(idx, fi.module, s.value, bind, depth)
